@@ -52,13 +52,26 @@ func (o op) token() string {
 	return fmt.Sprintf("%c%d=%s", o.kind, o.pfx, o.path.Token())
 }
 
+type hpair struct {
+	attr   string
+	p1, p2 aro.PS
+}
+
 type tcase struct {
 	sess  aro.Sess
 	chain aro.Chain
 	ops   []op
+	hash  []hpair // a HASH case: pairs of paths for the injectivity of the path id hash
 }
 
 func (c tcase) input() string {
+	if c.hash != nil {
+		t := []string{"HASH"}
+		for _, h := range c.hash {
+			t = append(t, fmt.Sprintf("h%s=%s|%s", h.attr, h.p1.Token(), h.p2.Token()))
+		}
+		return strings.Join(t, " ")
+	}
 	t := []string{c.sess.Token(), "C" + c.chain.Token()}
 	for _, o := range c.ops {
 		t = append(t, o.token())
@@ -69,6 +82,23 @@ func (c tcase) input() string {
 func parseCase(in string) (tcase, error) {
 	var c tcase
 	f := strings.Fields(in)
+	if len(f) >= 1 && f[0] == "HASH" {
+		c.hash = []hpair{}
+		for _, t := range f[1:] {
+			eq := strings.Index(t, "=")
+			bar := strings.Index(t, "|")
+			if t[0] != 'h' || eq < 0 || bar < eq {
+				return c, fmt.Errorf("bad hash pair %q", t)
+			}
+			p1, e1 := aro.ParsePath(t[eq+1 : bar])
+			p2, e2 := aro.ParsePath(t[bar+1:])
+			if e1 != nil || e2 != nil {
+				return c, fmt.Errorf("bad hash pair %q", t)
+			}
+			c.hash = append(c.hash, hpair{t[1:eq], p1, p2})
+		}
+		return c, nil
+	}
 	if len(f) < 2 {
 		return c, fmt.Errorf("short case")
 	}
@@ -152,7 +182,59 @@ func locView(lr *locRIB.LocRIB, s aro.Sess) string {
 	return strings.Join(out, ";")
 }
 
+// runHash: the identifier is allocated per BGPPath.ComputeHash; paths that differ in anything a peer can
+// see must hash differently (and the update sender's ComputeHashWithPathID likewise, OTC aside, which that
+// function does not cover). Observation per pair: <ComputeHash equal?><ComputeHashWithPathID equal?>
+func runHash(c tcase) (obs string, v *verdict, nontrivial bool) {
+	var out []string
+	for i, h := range c.hash {
+		a, b := h.p1.Build(), h.p2.Build()
+		e1 := a.BGPPath.ComputeHash() == b.BGPPath.ComputeHash()
+		e2 := a.BGPPath.ComputeHashWithPathID() == b.BGPPath.ComputeHashWithPathID()
+		out = append(out, map[bool]string{true: "1", false: "0"}[e1]+map[bool]string{true: "1", false: "0"}[e2])
+		differ := h.p1.AnnKey() != h.p2.AnnKey()
+		nontrivial = nontrivial || differ
+		if differ && e1 && v == nil {
+			v = &verdict{"hash-collision:" + h.attr, fmt.Sprintf("pair %d: ComputeHash equal for %s and %s", i, h.p1.Token(), h.p2.Token())}
+		}
+		if differ && e2 && h.attr != "otc" && v == nil {
+			v = &verdict{"hash-with-path-id-collision:" + h.attr, fmt.Sprintf("pair %d: ComputeHashWithPathID equal for %s and %s", i, h.p1.Token(), h.p2.Token())}
+		}
+	}
+	return strings.Join(out, " "), v, nontrivial
+}
+
+func genHash(r *hx.RNG, t *hx.Trace) tcase {
+	c := tcase{hash: []hpair{}}
+	p := aro.RichPath(r)
+	for _, atom := range aro.Atoms {
+		c.hash = append(c.hash, hpair{atom, p, aro.MutateAtom(r, p, atom)})
+	}
+	// pairs the hash does not (and need not) tell apart: absent vs empty list, split AS_SEQUENCE
+	q := p
+	q.Comms, q.CommsNil = []uint32{}, false
+	q2 := q
+	q2.CommsNil = true
+	c.hash = append(c.hash, hpair{"same-nil-empty", q, q2})
+	s1, s2 := p, p
+	s1.ASPath = []aro.Seg{{Seq: true, ASNs: []uint32{65001, 65002}}}
+	s2.ASPath = []aro.Seg{{Seq: true, ASNs: []uint32{65001}}, {Seq: true, ASNs: []uint32{65002}}}
+	c.hash = append(c.hash, hpair{"same-seq-split", s1, s2})
+	// and a random pair
+	c.hash = append(c.hash, hpair{"random", aro.GenPath(r, aro.GenOpts{Extras: true}), aro.GenPath(r, aro.GenOpts{Extras: true})})
+	t.Count("hash_case")
+	return c
+}
+
+func isRich(p aro.PS) bool {
+	return !p.Static && len(p.ASPath) == 2 && len(p.ASPath[0].ASNs) > 0 && len(p.ASPath[1].ASNs) > 0 && len(p.Unk) == 2 &&
+		len(p.Unk[0].Val) > 0 && p.Agg != nil && len(p.CL) == 2 && len(p.Comms) == 2 && len(p.LComms) == 2
+}
+
 func runCase(c tcase) (obs string, v *verdict, nontrivial bool) {
+	if c.hash != nil {
+		return runHash(c)
+	}
 	lr := locRIB.New("c11")
 	a := adjRIBOut.New(lr, c.sess.Attrs(), c.chain.Build())
 	rec := aro.NewRec()
@@ -282,7 +364,17 @@ func gen(r *hx.RNG, t *hx.Trace) tcase {
 	newPath := func() aro.PS {
 		var p aro.PS
 		if len(pool) > 0 && r.Chance(45) {
-			p = aro.Mutate(r, pool[r.Intn(len(pool))])
+			p = pool[r.Intn(len(pool))]
+			if isRich(p) {
+				p = aro.MutateAtom(r, p, aro.Atoms[r.Intn(len(aro.Atoms))]) // one atom of one attribute
+			} else {
+				p = aro.Mutate(r, p)
+			}
+		} else if r.Chance(30) {
+			p = aro.RichPath(r)
+			if c.sess.Kind == "ibgp" {
+				p.EBGP = true
+			}
 		} else {
 			p = aro.GenPath(r, aro.DefaultGen)
 			if c.sess.IBGP() && c.sess.Kind == "ibgp" && !p.Static {
@@ -403,6 +495,10 @@ func main() {
 		}
 		rng := hx.NewRNG(cfg.Seed)
 		for i := 0; i < cfg.N; i++ {
+			if i%8 == 7 {
+				do(fmt.Sprintf("g%d", i), genHash(rng.Fork(uint64(i)), tr))
+				continue
+			}
 			do(fmt.Sprintf("g%d", i), gen(rng.Fork(uint64(i)), tr))
 		}
 	}
